@@ -169,3 +169,63 @@ def array_len(t):
     import re
     m = re.search(r'\[(\d+)\]\s*$', t)
     return int(m.group(1)) if m else None
+
+
+def eval_int(e, env):
+    """Evaluate an integer expression AST with variables bound in env (name -> int); C semantics
+    for / and % on non-negative values.  Returns None when something is not evaluable."""
+    e = strip(e)
+    k = e.get('kind')
+    v = int_value(e)
+    if v is not None and not isinstance(v, str):
+        return v
+    if k == 'DeclRefExpr':
+        r = e.get('_ref') or ('',)
+        nm = r[2] if len(r) > 2 else (r[1] if len(r) > 1 else None)
+        return env.get(nm)
+    if k == 'UnaryOperator':
+        a = eval_int(children(e)[0], env)
+        if a is None:
+            return None
+        op = e.get('opcode')
+        return {'-': -a, '+': a, '~': ~a, '!': int(not a)}.get(op)
+    if k == 'BinaryOperator':
+        op = e.get('opcode')
+        a = eval_int(children(e)[0], env)
+        if op == '&&':
+            if a is None:
+                return None
+            if not a:
+                return 0
+            b = eval_int(children(e)[1], env)
+            return None if b is None else int(bool(b))
+        if op == '||':
+            if a is None:
+                return None
+            if a:
+                return 1
+            b = eval_int(children(e)[1], env)
+            return None if b is None else int(bool(b))
+        b = eval_int(children(e)[1], env)
+        if a is None or b is None:
+            return None
+        try:
+            if op == '/':
+                return int(a / b) if b else None
+            if op == '%':
+                return a - b * int(a / b) if b else None
+            return {'+': a + b, '-': a - b, '*': a * b, '<<': a << b, '>>': a >> b, '&': a & b, '|': a | b,
+                    '^': a ^ b, '==': int(a == b), '!=': int(a != b), '<': int(a < b), '>': int(a > b),
+                    '<=': int(a <= b), '>=': int(a >= b)}.get(op)
+        except (ValueError, OverflowError):
+            return None
+    if k == 'ConditionalOperator':
+        c = eval_int(children(e)[0], env)
+        if c is None:
+            return None
+        return eval_int(children(e)[1 if c else 2], env)
+    if k == 'UnaryExprOrTypeTraitExpr':
+        t = (e.get('argType') or {}).get('qualType') or (qtype(children(e)[0]) if children(e) else '')
+        return {'char': 1, 'unsigned char': 1, 'int': 4, 'unsigned int': 4, 'uint32_t': 4, 'uint64_t': 8,
+                'size_t': 8, 'long': 8}.get(t)
+    return None
